@@ -104,8 +104,9 @@ func runRace(raw json.RawMessage) (interface{}, error) {
 	route.SetTable(make(route.Table))
 	v.CleanupOnce()
 	keysLeft := len(v.Keys())
-	deadline := time.Now().Add(300 * time.Millisecond)
-	for pooled != nil && pooled.GetState() != connectivity.Shutdown && time.Now().Before(deadline) {
+	// wait for the closer only when the cleanup did take the key out (generous: loaded machines)
+	deadline := time.Now().Add(15 * time.Second)
+	for keysLeft == 0 && pooled != nil && pooled.GetState() != connectivity.Shutdown && time.Now().Before(deadline) {
 		time.Sleep(200 * time.Microsecond)
 	}
 	time.Sleep(2 * time.Millisecond)
